@@ -7,6 +7,7 @@ import io
 import json
 import logging
 import math
+import random
 import warnings
 
 import numpy as np
@@ -195,6 +196,10 @@ def gen_cases(ctx):
     yield {"kind": "stats", "e": [1.0, 2.0, 3.0, 6.0]}
     yield {"kind": "stats", "e": [0.1, 0.1, 0.1]}
     yield {"kind": "stats", "e": [3.0, 1.0, 2.0]}
+    # long arrays (the property quantifies over 1..10^6 values; thresholds of "large input" code paths: 10^5, 2^17)
+    rl = random.Random(f"C12-long/{ctx.seed}")
+    for n in (99999, 100000, 131072):
+        yield {"kind": "stats", "gen": "long", "e": [float(rl.randint(0, 4096)) / 64 for _ in range(n)], "sized": True}
     yield {"kind": "hist", "u": "meters", "v": "millimeters", "e": [1.0, 2.0], "corpus": "F11"}
     yield {"kind": "hist", "u": "radians", "v": "degrees", "e": [0.5, 1.0]}
     # ---- statistics
@@ -363,8 +368,11 @@ def impl_stats(e, flavour=None):
     before = m.error.tobytes()
     allst = m.get_all_statistics()
     single = {s.value: float(m.get_statistic(s)) for s in metrics.StatisticsType}
+    # computing statistics / taking a result must not reorder or rescale the values: value k stays the error of pose k
+    res = m.get_result("ref", "est")
     return {"all": {k: float(v) for k, v in allst.items()}, "keys": list(allst.keys()), "single": single,
-            "unchanged": m.error.tobytes() == before}
+            "unchanged": m.error.tobytes() == before
+            and np.asarray(res.np_arrays["error_array"], dtype=float).tobytes() == np.asarray(make_array(e, None), dtype=float).tobytes()}
 
 
 def impl_units(case):
